@@ -14,6 +14,9 @@ pub fn fnv(s: &[u8], mut h: u64) -> u64 {
     h
 }
 pub const FNV0: u64 = 0xcbf29ce484222325;
+/// Stack of every thread that executes operations, "thread 0" included (the whole executor runs on such a thread, see main.rs):
+/// a reference process and a history must not differ in how deep a recursive grammar may recurse before the stack overflows.
+pub const STACK_BYTES: usize = 1 << 30;
 
 struct SlotRec {
     ptr: *mut String,
@@ -104,14 +107,18 @@ impl Workers {
         for _ in 1..n {
             let (jtx, jrx) = mpsc::channel::<Job>();
             let rtx = rtx.clone();
-            std::thread::spawn(move || {
-                while let Ok(job) = jrx.recv() {
-                    let r = job();
-                    if rtx.send(r).is_err() {
-                        break;
+            // every thread that runs operations has the same (large) stack, see `STACK_BYTES`
+            std::thread::Builder::new()
+                .stack_size(STACK_BYTES)
+                .spawn(move || {
+                    while let Ok(job) = jrx.recv() {
+                        let r = job();
+                        if rtx.send(r).is_err() {
+                            break;
+                        }
                     }
-                }
-            });
+                })
+                .expect("spawn worker");
             tx.push(jtx);
         }
         Workers { tx, rx: rrx }
